@@ -142,6 +142,9 @@ var endpointSpace = engine.Space{
 	engine.D("cid", "absent", "=iss", "web"),
 	engine.D("extra", "none", "scope"),
 	engine.D("phase", "250ms", "750ms"),
+	// the provider's JWT profile verifier: the stock one, or one with a custom SubjectCheck that
+	// tolerates every subject (then sub need not equal iss; the identity is still iss)
+	engine.D("pv", "default", "tolerant"),
 }
 
 func runEndpoint(t *testing.T, c *engine.Check) {
@@ -157,8 +160,9 @@ func runEndpoint(t *testing.T, c *engine.Check) {
 		Groups: [][]string{
 			{"op", "router", "iss", "kid", "signer"},
 			{"op", "router", "sub", "aud", "iat", "exp", "atype", "cid"},
+			{"op", "router", "iss", "sub", "pv", "cid"},
 		},
-		Ks: []int{1, engine.Pick(c, 0, 1)},
+		Ks: []int{1, engine.Pick(c, 0, 1), engine.Pick(c, 0, 1)},
 		Skip: func(v engine.Vec) bool {
 			// the jwt-bearer grant carries no client authentication members
 			return sp.Get(v, "op") == "bearer" && (sp.Get(v, "atype") != "jwt-bearer" || sp.Get(v, "cid") != "absent")
@@ -167,9 +171,12 @@ func runEndpoint(t *testing.T, c *engine.Check) {
 			return func(v engine.Vec) engine.Result {
 				// a provider of its own for every execution: the verdict of a case must not depend on
 				// what the instance served before (that is the business of part history-endpoint)
-				r := newRig(true)
 				g := func(n string) string { return sp.Get(v, n) }
+				r := newRigPV(true, g("pv"))
 				a := decodeAssertion(g)
+				if g("pv") == "tolerant" {
+					a.subPolicy = "any"
+				}
 				now := eT0.Add(mustDur(g("phase")))
 				tok := serialize(a.signer, a.kid, a.payload(eT0, I))
 				return endpointCase(t, r, g("op"), g("router"), a, tok, g("atype"), g("cid"), now, "")
@@ -267,7 +274,8 @@ func endpointCaseW(t *testing.T, r *rig.Rig, opName, router string, a assertionT
 	case "bearer":
 		acted = len(newTok) > 0 || body["access_token"] != nil || len(r.Core.Calls("CreateAccessToken")) > 0
 		for _, tk := range newTok {
-			actedFor = append(actedFor, tk.ClientID)
+			// (refstore files a jwt-bearer token under its subject: tk.ClientID says nothing about
+			// the authenticated party; ValidateJWTProfileScopes below receives the issuer)
 			if tk.Subject != a.sub {
 				return engine.Bad(rule, "acted", "C14/bearer-token-subject-differs-from-signed-sub"+site, fmt.Sprintf("token subject %q, signed sub %q", tk.Subject, a.sub)), expect
 			}
@@ -339,7 +347,8 @@ func endpointCaseW(t *testing.T, r *rig.Rig, opName, router string, a assertionT
 		}
 	}
 	// ---- completeness: the canonical valid assertion of an eligible client is honoured
-	if expect == mustAccept && atype == "jwt-bearer" && cid != "web" && eligible(opName, a.iss) {
+	// (with a tolerant subject check and sub != iss the operation itself is left open)
+	if expect == mustAccept && atype == "jwt-bearer" && cid != "web" && eligible(opName, a.iss) && a.sub == a.iss {
 		if helperRule == "" {
 			rule = "valid-assertion-of-eligible-client"
 		}
